@@ -559,7 +559,10 @@ def r5_exact_text(run, w, mod, ce):
   calls = [c for c in calls_in(init.node.body) if dotted(c.func) == "_parse_slot"]
   if len(calls) != 1:
     raise AnalysisError("%s.Schedule.__init__: one _parse_slot call expected" % M)
-  src = _source_text(iv, calls[0], calls[0].args[0])
+  a0 = iv.arg(calls[0], 0)
+  if a0 is None:
+    raise AnalysisError("%s.Schedule.__init__: _parse_slot is called without a slot text" % M)
+  src = _source_text(iv, calls[0], a0)
   run.ob(R5, init.qualname, "_parse_slot(<part of %s>)" % ispec, "the slot texts handed to the "
          "slot parser are pieces of the spec as written: %s" % short(src, 80),
          _mentions(src, ispec) and not _folds_case(src), fi=init.fi, node=calls[0])
@@ -618,7 +621,8 @@ def _provenance(run, R5, w, mod, fn, v, expr, spec, depth):
   alts = _alternatives(v, expr, nid)
   for (e, at) in alts:
     if isinstance(e, ast.Call) and dotted(e.func) in mod.classes:
-      arg = v.x(e.args[0], at=at) if len(e.args) == 1 and not e.keywords else None
+      a0 = v.arg(e, 0)
+      arg = v.x(a0, at=at) if a0 is not None and len(e.args) + len(e.keywords) == 1 else None
       ok = arg is not None and text(arg) == spec
       if not ok and arg is not None and not _folds_case(arg):
         raise AnalysisError("%s: %s is built from %s; cannot tell whether that is the spec as "
@@ -629,6 +633,8 @@ def _provenance(run, R5, w, mod, fn, v, expr, spec, depth):
     elif isinstance(e, ast.Call) and dotted(e.func) in mod.functions:
       callee = w.fn(M + "." + dotted(e.func))
       b = H.bind_args(e, callee.fi.params())
+      if b is None:
+        raise AnalysisError("%s: cannot follow the arguments of %s" % (fn.qualname, short(e)))
       hits = [p for p, a in (b or {}).items() if text(v.x(a, at=at)) == spec]
       if len(hits) != 1:
         if b and any(_folds_case(v.x(a, at=at)) for a in b.values()):
